@@ -958,3 +958,33 @@ pub fn vdep_cycle(kind: Kind) -> Program {
         root0: None,
     }
 }
+
+/// C12: monotone cycles in which a member reads an input lazily, only once its own provisional
+/// value says so (value-dependent but monotone: more bits in, more bits out).
+pub fn lazy_input_cycles(kind: Kind) -> Vec<Program> {
+    let lazy = |own: u8| Ex::iff(Ex::and(call(own), k(1)), cell(1), k(0));
+    let mut v = Vec::new();
+    v.push(Program {
+        name: format!("lazycyc-a-{kind:?}"),
+        cells: vec![(1, Dur::Low), (2, Dur::Low)],
+        nodes: vec![
+            NodeDef::new(kind, Ex::or(Ex::or(call(1), k(1)), lazy(0))).alt(Ex::or(call(1), k(1))),
+            NodeDef::new(kind, call(0)),
+            NodeDef::new(Kind::Ev, Ex::add(call(0), call(1))),
+        ],
+        ext: vec![0],
+        root0: None,
+    });
+    v.push(Program {
+        name: format!("lazycyc-b-{kind:?}"),
+        cells: vec![(1, Dur::Low), (2, Dur::Low)],
+        nodes: vec![
+            NodeDef::new(kind, Ex::or(call(1), k(1))).alt(Ex::or(call(1), cell(0))),
+            NodeDef::new(kind, Ex::or(call(0), lazy(1))),
+            NodeDef::new(kind, Ex::or(call(1), Ex::ifc(0, call(0), k(4)))),
+        ],
+        ext: vec![0],
+        root0: None,
+    });
+    v
+}
